@@ -272,7 +272,7 @@ Init == /\ InitTree
         /\ lastOp = [op |-> <<"init", 0, 0, 0, 0>>, res |-> "ok"]
         /\ steps = 0
         /\ hist = <<>>
-        /\ rng = 0
+        /\ rng = <<0, 0, 0>>
 
 Success(op) == /\ IsSuccessOf(K, children, parent, op, children', parent')
                /\ lastOp' = [op |-> op, res |-> "ok"]
@@ -314,17 +314,27 @@ DumpTransition ==
 \* the same actions.  Evaluating every successor of every state of a behaviour
 \* (plain -simulate) costs ~700 list effects per step, and TLC's RandomElement
 \* is not reproducible across runs here, so the draw is part of the
-\* specification: a Lehmer generator (x' = 16807 x mod 2^31-1, Schrage's
-\* form, 32-bit safe) carried in `rng` selects the operation name and each
-\* argument independently.  Every state has one successor, so a plain TLC run
-\* (any number of workers) over Universe.traces seeds yields exactly that many
-\* behaviours, reproducibly; `tlc -simulate` works on the same actions.  Each
+\* specification: a Wichmann-Hill generator (three small multiplicative
+\* congruential generators, 32-bit safe) carried in `rng` selects the operation
+\* name and each argument independently.  The k-th draw of a step is computed
+\* directly from `rng` with the precomputed powers of the multipliers (a nested
+\* NextRng(NextRng(..)) is re-evaluated exponentially often by TLC).  Every
+\* state has one successor, so a plain TLC run (any number of workers) over
+\* NumTraces seeds yields exactly that many behaviours, reproducibly.  Each
 \* call takes the successful branch when the property allows one; the single
 \* Finish step prints the history.
-LehmerM == 2147483647
-NextRng(x) == LET y == 16807 * (x % 127773) - 2836 * (x \div 127773)
-              IN IF y > 0 THEN y ELSE y + LehmerM
-SeedOf(t) == ((((GenSeed % 20000) * 100003) + (t * 7919) + 12345) % LehmerM) + 1
+WHM == <<30269, 30307, 30323>>
+WHA == <<171, 172, 170>>
+\* WHPow[j][k] = WHA[j]^k mod WHM[j]  (k = 1..7), written out
+WHPow == <<<<171, 29241, 5826, 27638, 4134, 10727, 18177>>,
+          <<172, 29584, 27179, 7510, 18826, 25530, 26952>>,
+          <<170, 28900, 674, 23611, 11234, 29754, 24562>>>>
+Draw(k) == ((rng[1] * WHPow[1][k]) % WHM[1]) + ((rng[2] * WHPow[2][k]) % WHM[2])
+           + ((rng[3] * WHPow[3][k]) % WHM[3])
+RngAfterStep == [j \in 1..3 |-> (rng[j] * WHPow[j][7]) % WHM[j]]
+SeedOf(t) == <<1 + ((GenSeed * 7 + t * 13) % 30268),
+               1 + ((GenSeed * 11 + t * 101) % 30306),
+               1 + ((GenSeed + t * 7919) % 30322)>>
 
 \* the call tuple of a name and independently drawn arguments (unused ones = 0)
 ShapeOp(nm, p, i, c, c0, d, d1) ==
@@ -347,18 +357,16 @@ GenNext ==
   \/ /\ steps < MaxSteps
      /\ steps' = steps + 1
      /\ LET n  == Len(K)
-            r1 == NextRng(rng)  r2 == NextRng(r1)  r3 == NextRng(r2)  r4 == NextRng(r3)
-            r5 == NextRng(r4)   r6 == NextRng(r5)  r7 == NextRng(r6)
-            nm == OpSeq[(r1 % Len(OpSeq)) + 1]
-            p  == ParentSeq[(r2 % Len(ParentSeq)) + 1]
+            nm == OpSeq[(Draw(1) % Len(OpSeq)) + 1]
+            p  == ParentSeq[(Draw(2) % Len(ParentSeq)) + 1]
             w  == Len(children[p]) + Slack
-            i  == (r3 % (2 * w + 1)) - w
-            c  == (r4 % n) + 1
-            c0 == r5 % (n + 1)
-            d  == IF Pairs = 1 THEN r6 % (n + 1) ELSE 0
-            d1 == (r7 % n) + 1
+            i  == (Draw(3) % (2 * w + 1)) - w
+            c  == (Draw(4) % n) + 1
+            c0 == Draw(5) % (n + 1)
+            d  == IF Pairs = 1 THEN Draw(6) % (n + 1) ELSE 0
+            d1 == (Draw(7) % n) + 1
             op == ShapeOp(nm, p, i, c, c0, d, d1)
-        IN /\ rng' = r7
+        IN /\ rng' = RngAfterStep
            /\ IF CanSucceed(K, children, parent, op) THEN Success(op) ELSE Refuse(op)
            /\ hist' = Append(hist, <<op, IF lastOp'.res = "ok" THEN 1 ELSE 0, children'>>)
   \/ /\ steps = MaxSteps
